@@ -324,6 +324,7 @@ def run_sub(prop, sub, tier, seed, workers_override=None):
     # hard wall limit: a code change that makes the code under test loop forever must not hang the
     # check; what was explored until then is reported and the sub-check is marked inconclusive
     budget = sub.budget_quick if tier == "quick" else sub.budget_thorough
+    os.environ["VERIF_SUB_BUDGET"] = "%d" % budget      # read by count-bounded custom sub-checks (fuzz campaigns)
     hard = max(420.0, 6.0 * budget) if tier == "quick" else max(2400.0, 4.0 * budget)
     t0 = time.time()
     timed_out = False
@@ -431,6 +432,19 @@ def run_property(prop, tier, seed, only=None, workers=None):
 
     # 2. generated / enumerated search
     if harness is None:
+        if tier == "thorough":
+            # the thorough tier of one property is kept within VERIF_THOROUGH_CAP seconds of wall budget (default
+            # 1200): the sub-checks' budgets are scaled down together when their sum is larger (a budget that runs
+            # out ends a sub-check normally with what was explored - never a violation)
+            try:
+                cap = float(os.environ.get("VERIF_THOROUGH_CAP", "1200") or 1200)
+            except ValueError:
+                cap = 1200.0
+            chosen = [x for x in mod.SUBS if not only or x.name in only]
+            total_budget = sum(x.budget_thorough for x in chosen)
+            if total_budget > cap > 0:
+                for x in chosen:
+                    x.budget_thorough = max(20.0, x.budget_thorough * cap / total_budget)
         for sub in mod.SUBS:
             if only and sub.name not in only:
                 continue
